@@ -794,6 +794,10 @@ func (s *PathState) applyTemplateAt(site ssa.CallInstruction, call *ssa.Call, da
 			for i, y := range x.Args {
 				as[i] = tr(y)
 			}
+			if mkT := wholeByteArraySlice(x, as); mkT != nil {
+				r = mkT
+				break
+			}
 			r = rebuildTag(x, as, tag)
 		}
 		if x.Fields != nil && r != nil && x.Op != "tablerow" && x.Op != "const" {
@@ -912,6 +916,34 @@ func (s *PathState) applyTemplateAt(site ssa.CallInstruction, call *ssa.Call, da
 	}
 	s.Inlines = append(s.Inlines, fmt.Sprintf("%s@%s", shortCallee(g.String()), s.iid(site)))
 	return true, panicked
+}
+
+// wholeByteArraySlice: p[:] inside an inlined helper whose pointer parameter p is bound to a local byte array of the
+// caller is the same buffer as the caller's own arr[:] — the term compute() gives `var arr [n]byte; arr[:]` (a fresh
+// zeroed make([]byte, n) keyed by the array's allocation), so that a fill inside the helper and a use in the caller
+// speak about one buffer. A helper that receives the array BY VALUE slices its own copy (another allocation).
+func wholeByteArraySlice(x *Term, as []*Term) *Term {
+	if x.Op != "slice" || len(as) != 4 || as[0] == nil || as[1] != nil || as[2] != nil || as[3] != nil {
+		return nil
+	}
+	a := as[0]
+	al, ok := a.V.(*ssa.Alloc)
+	if !ok || a.Op != "alloc" || !strings.HasPrefix(a.K, "alloc@") || al.Comment == "slicelit" || al.Comment == "varargs" || al.Comment == "makeslice" {
+		return nil
+	}
+	pt, ok := al.Type().Underlying().(*types.Pointer)
+	if !ok {
+		return nil
+	}
+	at, ok := pt.Elem().Underlying().(*types.Array)
+	if !ok {
+		return nil
+	}
+	if eb, ok := at.Elem().Underlying().(*types.Basic); !ok || eb.Kind() != types.Uint8 {
+		return nil
+	}
+	n := intConst(at.Len())
+	return &Term{K: "makeslice@" + strings.TrimPrefix(a.K, "alloc@"), Op: "make", Aux: "slice", Args: []*Term{n}, V: x.V}
 }
 
 // rebuildTag is rebuild for instruction-identified terms of an inlined callee: they get the call-site tag.
